@@ -47,7 +47,7 @@ theorem mem_occL (n : Net) (rm : List Ix) (S : List Nat) (ix : Ix) :
 theorem mem_occL_iff_pos (n : Net) (rm : List Ix) (S : List Nat) (ix : Ix) :
     ix ∈ n.occL rm S ↔ 0 < n.cntL rm S ix := by
   rw [mem_occL, Nat.pos_iff_ne_zero, Ne, cntL_eq_zero_iff]
-  push_neg
+  push Not
   rfl
 
 theorem occL_nodup (n : Net) (rm : List Ix) (S : List Nat) : (n.occL rm S).Nodup :=
